@@ -190,6 +190,227 @@ def masked_invalid(a, copy=True):
     return res
 
 
+class _ArrMeta(type):
+    """isinstance(x, shim.ndarray / shim.ma.MaskedArray) must accept the real
+    numpy classes; library subclasses keep normal semantics"""
+    def __instancecheck__(cls, obj):
+        rb = cls.__dict__.get('_real_base')
+        if rb is not None:
+            return isinstance(obj, rb)
+        return type.__instancecheck__(cls, obj)
+
+    def __subclasscheck__(cls, sub):
+        rb = cls.__dict__.get('_real_base')
+        if rb is not None:
+            return issubclass(sub, rb)
+        return type.__subclasscheck__(cls, sub)
+
+
+_MAMeta = _NDMeta = _ArrMeta
+
+
+def _z3min(vals, lt):
+    m = vals[0]
+    for b in vals[1:]:
+        if isinstance(m, Sym) or isinstance(b, Sym):
+            c = (b < m) if lt else (b > m)
+            if isinstance(c, SymBool):
+                k, ea, eb = symx._coerce2(b, m)
+                m = symx._wrap(k, symx.z3.If(c.e, ea, eb))
+                continue
+            m = b if c else m
+        else:
+            m = b if ((b < m) if lt else (b > m)) else m
+    return m
+
+
+def sym_sqrt(x):
+    """principal square root of a symbolic real: fresh s with s>=0, s*s=x"""
+    if not isinstance(x, Sym):
+        return _np.sqrt(x)
+    ctx = symx.cur()
+    ctx.nfresh += 1
+    s = symx.z3.Real('sqrt!%d' % ctx.nfresh)
+    k, e = symx._num(x)
+    if k == 'i':
+        e = symx.z3.ToReal(e)
+    ctx.assume(symx.z3.And(s >= 0, s * s == e), check=False)
+    if not hasattr(ctx, 'sqrt_defs'):
+        ctx.sqrt_defs = {}
+    ctx.sqrt_defs[s.get_id()] = (s, e)
+    return SymReal(s)
+
+
+class SymNDArray(_np.ndarray, metaclass=_NDMeta):
+    """numpy.ndarray whose comparisons-based reductions (min/max) and
+    sqrt-based ones (std) on *object* arrays of symbolic scalars build z3
+    terms instead of forking on every comparison.  Numeric dtypes: numpy."""
+    _real_base = _np.ndarray
+
+    def _red(self, kind, axis, keepdims, sup, **kw):
+        if isinstance(self, _np.ma.MaskedArray):
+            # library classes put the plain base first in their MRO
+            return getattr(SymMaskedArray, kind)(self, axis=axis,
+                                                 keepdims=keepdims, **kw)
+        if self.dtype == object:
+            kd = False if keepdims is _np._NoValue else keepdims
+            r = SymMaskedArray._sym_reduce(self, kind, axis, kd, **kw)
+            if isinstance(r, _np.ma.MaskedArray):
+                return _np.ma.getdata(r).view(_np.ndarray)
+            return r
+        return sup()
+
+    def min(self, axis=None, out=None, keepdims=_np._NoValue, **k):
+        return self._red('min', axis, keepdims, lambda: _np.ndarray.min(
+            self, axis, out, keepdims, **k))
+
+    def max(self, axis=None, out=None, keepdims=_np._NoValue, **k):
+        return self._red('max', axis, keepdims, lambda: _np.ndarray.max(
+            self, axis, out, keepdims, **k))
+
+    def std(self, axis=None, dtype=None, out=None, ddof=0,
+            keepdims=_np._NoValue, **k):
+        return self._red('std', axis, keepdims, lambda: _np.ndarray.std(
+            self, axis, dtype, out, ddof, keepdims, **k), ddof=ddof)
+
+    def var(self, axis=None, dtype=None, out=None, ddof=0,
+            keepdims=_np._NoValue, **k):
+        return self._red('var', axis, keepdims, lambda: _np.ndarray.var(
+            self, axis, dtype, out, ddof, keepdims, **k), ddof=ddof)
+
+
+class SymMaskedArray(_np.ma.MaskedArray, metaclass=_MAMeta):
+    """numpy.ma.MaskedArray whose reductions also work on object arrays of
+    symbolic scalars (numpy.ma needs dtype-specific fill values for
+    min/max and C loops for the rest).  For numeric dtypes everything is
+    numpy's own."""
+    _real_base = _np.ma.MaskedArray
+
+    def _sym_reduce(self, kind, axis=None, keepdims=False, ddof=0):
+        data = _np.ma.getdata(self)
+        mask = _np.ma.getmaskarray(self)
+        if axis is None:
+            d2 = data.reshape(1, -1)
+            m2 = mask.reshape(1, -1)
+            oshape = (1,) * data.ndim if keepdims else ()
+        else:
+            ax = axis if axis >= 0 else axis + data.ndim
+            d2 = _np.moveaxis(data, ax, -1)
+            m2 = _np.moveaxis(mask, ax, -1)
+            oshape = list(data.shape)
+            if keepdims:
+                oshape[ax] = 1
+            else:
+                del oshape[ax]
+            oshape = tuple(oshape)
+            lead = d2.shape[:-1]
+            d2 = d2.reshape(-1, d2.shape[-1]) if d2.ndim > 1 else \
+                d2.reshape(1, -1)
+            m2 = m2.reshape(d2.shape)
+        od = _np.empty(d2.shape[0], dtype=object)
+        om = _np.zeros(d2.shape[0], dtype=bool)
+        for i in range(d2.shape[0]):
+            vals = [x for x, mm in zip(d2[i], m2[i]) if not mm]
+            n = len(vals)
+            if n == 0:
+                od[i] = 0
+                om[i] = True
+                continue
+            if kind == 'sum':
+                r = vals[0]
+                for b in vals[1:]:
+                    r = r + b
+            elif kind == 'prod':
+                r = vals[0]
+                for b in vals[1:]:
+                    r = r * b
+            elif kind == 'mean':
+                r = vals[0]
+                for b in vals[1:]:
+                    r = r + b
+                r = r / n
+            elif kind == 'min':
+                r = _z3min(vals, True)
+            elif kind == 'max':
+                r = _z3min(vals, False)
+            elif kind == 'ptp':
+                r = _z3min(vals, False) - _z3min(vals, True)
+            elif kind in ('var', 'std'):
+                mu = vals[0]
+                for b in vals[1:]:
+                    mu = mu + b
+                mu = mu / n
+                r = (vals[0] - mu) * (vals[0] - mu)
+                for b in vals[1:]:
+                    r = r + (b - mu) * (b - mu)
+                if n - ddof <= 0:
+                    od[i] = 0
+                    om[i] = True
+                    continue
+                r = r / (n - ddof)
+                if kind == 'std':
+                    r = sym_sqrt(r)
+            elif kind == 'count':
+                r = n
+            else:
+                raise NotImplementedError(kind)
+            od[i] = r
+        res = _np.ma.MaskedArray(od.reshape(oshape), mask=om.reshape(oshape))
+        res = res.view(SymMaskedArray)
+        if res.ndim == 0 and not keepdims:
+            return _np.ma.masked if om.reshape(-1)[0] else od.reshape(-1)[0]
+        return res
+
+    def _dispatch(self, kind, axis, keepdims, sup, **kw):
+        if self.dtype == object:
+            kd = False if keepdims is _np._NoValue else keepdims
+            return self._sym_reduce(kind, axis, kd, **kw)
+        return sup()
+
+    def sum(self, axis=None, dtype=None, out=None, keepdims=_np._NoValue):
+        return self._dispatch('sum', axis, keepdims, lambda: _np.ma.MaskedArray
+                              .sum(self, axis, dtype, out, keepdims))
+
+    def prod(self, axis=None, dtype=None, out=None, keepdims=_np._NoValue):
+        return self._dispatch('prod', axis, keepdims, lambda: _np.ma.
+                              MaskedArray.prod(self, axis, dtype, out,
+                                               keepdims))
+
+    def mean(self, axis=None, dtype=None, out=None, keepdims=_np._NoValue):
+        return self._dispatch('mean', axis, keepdims, lambda: _np.ma.
+                              MaskedArray.mean(self, axis, dtype, out,
+                                               keepdims))
+
+    def min(self, axis=None, out=None, fill_value=None,
+            keepdims=_np._NoValue):
+        return self._dispatch('min', axis, keepdims, lambda: _np.ma.
+                              MaskedArray.min(self, axis, out, fill_value,
+                                              keepdims))
+
+    def max(self, axis=None, out=None, fill_value=None,
+            keepdims=_np._NoValue):
+        return self._dispatch('max', axis, keepdims, lambda: _np.ma.
+                              MaskedArray.max(self, axis, out, fill_value,
+                                              keepdims))
+
+    def var(self, axis=None, dtype=None, out=None, ddof=0,
+            keepdims=_np._NoValue, mean=_np._NoValue):
+        return self._dispatch('var', axis, keepdims, lambda: _np.ma.
+                              MaskedArray.var(self, axis, dtype, out, ddof,
+                                              keepdims), ddof=ddof)
+
+    def std(self, axis=None, dtype=None, out=None, ddof=0,
+            keepdims=_np._NoValue, mean=_np._NoValue):
+        return self._dispatch('std', axis, keepdims, lambda: _np.ma.
+                              MaskedArray.std(self, axis, dtype, out, ddof,
+                                              keepdims), ddof=ddof)
+
+    def ptp(self, axis=None, out=None, fill_value=None, keepdims=False):
+        return self._dispatch('ptp', axis, keepdims, lambda: _np.ma.
+                              MaskedArray.ptp(self, axis, out, fill_value,
+                                              keepdims))
+
+
 def make_numpy_shim():
     over = {
         'isscalar': lambda x: True if isinstance(x, (Sym, SymNaN))
@@ -222,7 +443,12 @@ def make_numpy_shim():
     if hasattr(_np, 'round_'):
         over['round_'] = _round
 
+    over['ndarray'] = SymNDArray
+    over['sqrt'] = lambda a, **k: _map(sym_sqrt, a) if _needs(a) \
+        else _np.sqrt(a, **k)
     ma_over = {
+        'MaskedArray': SymMaskedArray,
+        'masked_array': SymMaskedArray,
         'masked_invalid': masked_invalid,
         'floor': over['floor'], 'ceil': over['ceil'], 'round': _round,
         'around': _round,
